@@ -2,7 +2,7 @@
     Statements about the model Model/Compare.v ([compare] = tree.Compare with cpus = 1 over an
     association-list index; the judge checks on every case that the model over the real hash
     index gives the same record), for all pairs of trees of the domain; proofs in
-    Proofs/Compare{Base,Tree,Main,Cor,Domain,Weighted}.v (on top of Proofs/IndexTree.v,
+    Proofs/Compare{Base,Tree,Main,Cor,Domain,Dupfree,Weighted,All,Ident}.v (on top of Proofs/IndexTree.v,
     Proofs/IndexSplit.v of C04 and Proofs/Splits.v of C05).
     Vocabulary: Spec/Obs.v ([usplits], [branch_splits]), Spec/CompareSpec.v ([split_list] = the
     splits of a tree with or without the tip branches, [spec_counts] = sizes of S1\S2, S1/\S2,
@@ -15,7 +15,7 @@
 From Coq Require Import String NArith ZArith QArith Bool Arith List Permutation.
 From GT Require Import Base.UTree Spec.Obs Spec.CompareSpec Spec.Unrooted Model.Reroot Model.Index Model.EdgeIndex Model.Compare
      Proofs.IndexSplit Proofs.CompareBase Proofs.CompareTree Proofs.CompareMain Proofs.CompareCor
-     Proofs.CompareDomain Proofs.CompareDupfree.
+     Proofs.CompareDomain Proofs.CompareDupfree Proofs.CompareWeighted Proofs.CompareAll Proofs.CompareIdent.
 Import ListNotations.
 Local Close Scope Q_scope.
 
@@ -99,6 +99,51 @@ Theorem C08_compare_tperm :
     compare tips false t1' t2 = compare tips false t1 t2.
 Proof. exact compare_tperm_ref. Qed.
 Print Assumptions C08_compare_tperm.
+
+(** * the identical-only shortcut: for ANY two trees the Sametree flag and the error are those of
+    the full comparison; on the domain, Sametree = "both 'only' counts are zero" *)
+Theorem C08_compare_ident_same :
+  forall tips t1 t2 r,
+    compare tips false t1 t2 = Some (Ok r) ->
+    exists r', compare tips true t1 t2 = Some (Ok r') /\ bs_same r' = bs_same r /\ bs_err r' = bs_err r.
+Proof. exact compare_ident_same. Qed.
+Print Assumptions C08_compare_ident_same.
+
+Theorem C08_compare_ident_identical :
+  forall tips t1 t2,
+    good t1 -> good t2 -> Permutation (leaves t1) (leaves t2) ->
+    dupfree t1 -> dupfree t2 -> tipflags t1 -> tipflags t2 ->
+    exists r', compare tips true t1 t2 = Some (Ok r') /\
+               bs_same r' = spec_identical tips t1 t2 /\ bs_err r' = EmptyString.
+Proof. exact compare_ident_identical. Qed.
+Print Assumptions C08_compare_ident_identical.
+
+(** * with weights: the three lists are the lengths of the splits only in the reference, only in the
+    compared tree, and (reference length - compared length) of the shared splits, in the order of
+    the branches of the tree they come from; Sametree iff the first two are empty and every
+    difference is zero *)
+Theorem C08_compare_weighted_terms :
+  forall tips t1 t2,
+    good t1 -> good t2 -> Permutation (leaves t1) (leaves t2) ->
+    dupfree t1 -> dupfree t2 -> tipflags t1 -> tipflags t2 ->
+    compare_weighted tips false t1 t2 =
+    Some (Ok (mkWS (spec_w_only1 tips t1 t2) (spec_w_only2 tips t1 t2) (spec_w_common tips t1 t2)
+                   (Nat.eqb (length (spec_w_only1 tips t1 t2)) 0 && Nat.eqb (length (spec_w_only2 tips t1 t2)) 0
+                    && all_zero (spec_w_common tips t1 t2))
+                   EmptyString)).
+Proof. exact compare_weighted_terms. Qed.
+Print Assumptions C08_compare_weighted_terms.
+
+Theorem C08_compare_weighted_unrooted :
+  forall tips t1 t2,
+    unrooted t1 -> unrooted t2 -> Permutation (leaves t1) (leaves t2) ->
+    compare_weighted tips false t1 t2 =
+    Some (Ok (mkWS (spec_w_only1 tips t1 t2) (spec_w_only2 tips t1 t2) (spec_w_common tips t1 t2)
+                   (Nat.eqb (length (spec_w_only1 tips t1 t2)) 0 && Nat.eqb (length (spec_w_only2 tips t1 t2)) 0
+                    && all_zero (spec_w_common tips t1 t2))
+                   EmptyString)).
+Proof. exact compare_weighted_unrooted. Qed.
+Print Assumptions C08_compare_weighted_unrooted.
 
 (** * trees on different taxa are rejected: the record carries an error *)
 Theorem C08_compare_different_taxa :
